@@ -31,7 +31,9 @@ def post_order_lexicographic(top: str, ignore_pathspec: pathspec.PathSpec = None
     children = []
     for name in names:
         file_path = os.path.join(top, name)
-        if ignore_pathspec and ignore_pathspec.match_file(file_path):
+        # directory patterns like "sub/" only match paths of directories, given with a trailing separator
+        match_path = file_path + os.sep if isdir(file_path) else file_path
+        if ignore_pathspec and ignore_pathspec.match_file(match_path):
             if os.path.basename(os.path.normpath(file_path)) != ascmhl_folder_name:
                 logger.verbose(f"ignoring filepath {file_path}")
             continue
